@@ -4,7 +4,7 @@ import random
 
 from .. import astx
 from ..core import REPO, CaseTimeout, case_timeout
-from ..gen_expr import Gen, datasets
+from ..gen_expr import GLOB, Gen, datasets
 from ..refeval import evaluate
 from . import c02
 
@@ -53,7 +53,7 @@ DIRECTED_OOB = [
 def judge(ctx, q, data, oob, info):
     from func_adl.ast.function_simplifier import FuncADLIndexError, simplify_chained_calls
 
-    before = [evaluate(q, d) for d in data]
+    before = [evaluate(q, d, GLOB) for d in data]
     key = astx.dump_fields(q)
     hostile = any(f.startswith("selector:") for f in info.get("features", [])) or info.get("directed")
     witness = {"query": astx.unparse(q), "oob": oob, "info": info}
@@ -108,7 +108,7 @@ def judge(ctx, q, data, oob, info):
     except Exception:
         ctx.count("observation:dag-unparse-raised")
     # semantically intact
-    after = [evaluate(out, d) for d in data]
+    after = [evaluate(out, d, GLOB) for d in data]
     for di, (b, a) in enumerate(zip(before, after)):
         if b[0] == "ok" and a != b:
             mech = c02.classify(q, data)
